@@ -38,6 +38,11 @@ def stepRecords (toks : List String) : String :=
     match find name, ofHex b with
     | some rc, some b => recDec (lookupKey tbl) rc b
     | _, _ => "bad-op"
+  | ["holdenc", name, b1, b2, b3, _keys] =>   -- held-encoding comparison: evaluated on the implementation (the model is pure)
+    match find name, ofHex b1, ofHex b2, ofHex b3 with
+    | some rc, some b1, some b2, some b3 =>
+      if [b1, b2, b3].all (fun b => match rc.ty.dec (lookupKey tbl) b with | .ok _ => true | .error _ => false) then "ok" else "bad-op"
+    | _, _, _, _ => "bad-op"
   | ["rt", name, vtxt, b, _keys] =>
     match find name, ofHex b with
     | some rc, some b => recRt (lookupKey tbl) rc vtxt b
